@@ -58,7 +58,7 @@ class C20(Prop):
             elif k == 'cresp':
                 c.update(data=rng.choice(['', 'aa', 'bbcc']), error=rng.random() < 0.2)
             elif k == 'coneway':
-                c.update(op=rng.choice(['fnf', 'mp']))
+                c.update(op=rng.choice(['fnf', 'mp']), subs=rng.choice([0, 1, 1, 2]))
             elif k == 'hstream':
                 c.update(count=rng.choice([0, 1, 3, 7]), error_at=rng.choice([None, None, 0, 2]), factory=rng.random() < 0.4, n0=rng.choice([1, 2, 4]),
                          more=[rng.choice([1, 2, 3]) for _ in range(rng.randint(0, 4))], together=rng.random() < 0.35)
@@ -194,7 +194,9 @@ class C20(Prop):
         n0 = len(t.sent)
         events = []
         o = rxc.fire_and_forget(Payload(b'ff')) if case['op'] == 'fnf' else rxc.metadata_push(b'mm')
-        o.subscribe(on_next=lambda v: events.append('n'), on_error=lambda e: events.append('e'), on_completed=lambda: events.append('c'))
+        # the core API sends the frame when the method is called, once — however often the returned observable is subscribed (0, 1, 2 times)
+        for _ in range(case.get('subs', 1)):
+            o.subscribe(on_next=lambda v: events.append('n'), on_error=lambda e: events.append('e'), on_completed=lambda: events.append('c'))
         await loop.settle()
         wire = [e[1].split(' ')[0] for e in t.sent[n0:]]
         await core.close()
@@ -425,7 +427,9 @@ class C20(Prop):
         elif k == 'coneway':
             want = 'REQUEST_FNF' if case['op'] == 'fnf' else 'METADATA_PUSH'
             if want not in obs['wire']:
-                add('one-way-request-not-sent', str(obs['wire']))
+                add('one-way-request-not-sent', '%s called once (result subscribed %d times): wire %s' % (case['op'], case.get('subs', 1), obs['wire']))
+            elif obs['wire'].count(want) != 1:
+                add('one-way-request-sent-more-than-once', '%s called once (result subscribed %d times): wire %s' % (case['op'], case.get('subs', 1), obs['wire']))
         elif k == 'honeway':
             want = {'setup': 'setup:data=c/d:metadata=a/b:01', 'mp': 'mp:07', 'fnf': 'fnf:08'}[case['op']]
             if obs['calls'] != [want]:
